@@ -319,6 +319,26 @@ def execute_subprocess(cases, so, asan_runtime=None, workdir="."):
     return json.load(open(outp))
 
 
+def execute_threaded(cases, mod, threads=4):
+    """the same cases issued from several threads at once (the kernels release the GIL, so they really overlap): every
+    call must still return the set operation of ITS operands"""
+    from multiprocessing.pool import ThreadPool
+    old = sys.getswitchinterval()
+    sys.setswitchinterval(1e-6)
+    try:
+        shards = [list(range(k, len(cases), threads)) for k in range(threads)]
+        with ThreadPool(threads) as pool:
+            parts = pool.map(lambda idxs: execute([cases[i] for i in idxs], mod), shards)
+    finally:
+        sys.setswitchinterval(old)
+    events = [None] * len(cases)
+    for idxs, evs in zip(shards, parts):
+        for i, ev in zip(idxs, evs):
+            ev["tid"] = i + 1
+            events[i] = ev
+    return events
+
+
 def _guard_event(c, tid, why):
     ev = {"tid": tid, "kind": c["kind"], "oob": False, "asan": True, "exc": False, "alien": False, "dtype": "uint32", "excmsg": why}
     if c["kind"] == "kernel":
